@@ -58,7 +58,7 @@ WEIGHTS = {"paint": 7, "update_attrs": 0.2, "delete_node": 4, "add_node": 4, "fe
 
 
 def plan(tier, seed):
-    return common.session_plan(PROP, tier, seed, quick=1600, thorough=25000)
+    return common.session_plan(PROP, tier, seed, quick=4800, thorough=50000)
 
 
 def run_shard(spec):
